@@ -157,11 +157,13 @@ Proof. unfold f_read. destruct (hfind (handles st) h) as [f|]; auto. destruct (k
 
 Lemma wf_h_step st h o : wfs st -> wfs (fst (h_step st h o)).
 Proof.
-  intro W. unfold wfs in *. destruct o as [d|off wh| |n|]; unfold h_step.
+  intro W. unfold wfs in *. destruct o as [d|off wh| |n| |]; unfold h_step.
+  6: { unfold f_flush. destruct (hfind (handles st) h); exact W. }
   - unfold f_write. destruct (hfind (handles st) h) as [f|]; auto.
     pose proof (wf_k_write st f d W) as W1. destruct (k_write st f d) as [[st1 f'] [n|e]]; auto.
   - unfold f_seek. destruct (hfind (handles st) h) as [f|]; auto. destruct (k_lseek st f off wh); auto.
-  - unfold f_readAll. pose proof (f_size_root st h) as S. destruct (f_size st h) as [st1 size]. cbn [fst] in S.
+  - unfold f_readAll. destruct (hfind (handles st) h) as [f0|]; [|exact W]. destruct (fd_dir f0); [exact W|].
+    pose proof (f_size_root st h) as S. destruct (f_size st h) as [st1 size]. cbn [fst] in S.
     destruct (size <? 0); cbn [fst]; [congruence|].
     pose proof (f_read_root st1 h (Z.to_nat size)) as R. destruct (f_read st1 h (Z.to_nat size)) as [st2 [d|e]];
       cbn [fst] in *; congruence.
@@ -253,6 +255,86 @@ Proof.
     pose proof (wf_k_rmdir st2 p W2) as W3. destruct (k_rmdir st2 p) as [st3 e3]; auto.
 Qed.
 
+(* ---- round 3 ---------------------------------------------------------------------------------------- *)
+
+Lemma wf_f_readAll st h : wfs st -> wfs (fst (f_readAll st h)).
+Proof.
+  intro W. pose proof (wf_h_step st h HReadAll W) as X. unfold h_step in X.
+  destruct (f_readAll st h) as [st' [b d]]. exact X.
+Qed.
+
+Lemma wf_f_readAll_path st p : wfs st -> wfs (fst (f_readAll_path st p)).
+Proof.
+  intro W. unfold f_readAll_path.
+  pose proof (wf_f_open st (fresh_handle st) p true false false false W) as W1.
+  destruct (f_open st (fresh_handle st) p true false false false) as [st1 [|]]; cbn [fst] in *; auto.
+  pose proof (wf_f_readAll st1 (fresh_handle st) W1) as W2.
+  destruct (f_readAll st1 (fresh_handle st)) as [st2 r]. cbn [fst] in *. exact W2.
+Qed.
+
+Lemma wf_d_change st p : wfs st -> wfs (fst (d_change st p)).
+Proof.
+  intro W. unfold d_change, k_chdir.
+  destruct (resolve st true p) as [e|d nm [[| |t]|]|d dot]; cbn [fst]; exact W.
+Qed.
+
+Lemma wf_f_unlink_o o st p : wfs st -> wfs (fst (fst (f_unlink_o o st p))).
+Proof.
+  intro W. unfold f_unlink_o. destruct (tick o) as [[|] o1]; cbn [fst]; auto.
+  pose proof (wf_f_unlink st p W) as X. destruct (f_unlink st p) as [st' b]. exact X.
+Qed.
+
+Lemma wf_unlink_entries_o recur :
+  (forall o st p, wfs st -> wfs (fst (fst (recur o st p)))) ->
+  forall ents o st prefix, wfs st -> wfs (fst (fst (unlink_entries_o recur o st prefix ents))).
+Proof.
+  intros R. induction ents as [|[nm k] t IH]; intros o st prefix W; cbn [unlink_entries_o];
+    destruct (tick o) as [[|] o1]; cbn [fst]; auto.
+  destruct (is_sdir k && is_dots nm); [apply IH; auto|].
+  assert (X : wfs (fst (fst (match k with SDir => recur o1 st (prefix ++ nm) | _ => f_unlink_o o1 st (prefix ++ nm) end)))).
+  { destruct k; auto using wf_f_unlink_o. }
+  destruct (match k with SDir => recur o1 st (prefix ++ nm) | _ => f_unlink_o o1 st (prefix ++ nm) end) as [[st1 ok] o2].
+  cbn [fst] in X. destruct ok; cbn [fst]; auto.
+Qed.
+
+Lemma wf_d_unlink_o fuel : forall o st p r, wfs st -> wfs (fst (fst (d_unlink_o fuel o st p r))).
+Proof.
+  induction fuel as [|f IH]; intros o st p r W; cbn [d_unlink_o]; destruct (tick o) as [bad o1].
+  - assert (W1 : wfs (fst (if bad then (st, Some EIO) else k_rmdir st p))).
+    { destruct bad; [exact W|apply wf_k_rmdir; exact W]. }
+    destruct (if bad then (st, Some EIO) else k_rmdir st p) as [st1 [e|]]; cbn [fst] in *; auto.
+    destruct (negb r || negb (is_enotempty e)); auto.
+  - assert (W1 : wfs (fst (if bad then (st, Some EIO) else k_rmdir st p))).
+    { destruct bad; [exact W|apply wf_k_rmdir; exact W]. }
+    destruct (if bad then (st, Some EIO) else k_rmdir st p) as [st1 [e|]]; cbn [fst] in *; auto.
+    destruct (negb r || negb (is_enotempty e)); auto.
+    destruct (tick o1) as [bad2 o2].
+    destruct (if bad2 then inr EIO else k_opendir st p) as [ents|e']; auto.
+    pose proof (wf_unlink_entries_o (fun o' s q => d_unlink_o f o' s q true) (fun o' s q => IH o' s q true) ents o2 st (p ++ [47]) W) as W2.
+    destruct (unlink_entries_o (fun o' s q => d_unlink_o f o' s q true) o2 st (p ++ [47]) ents) as [[st2 ok] o3].
+    cbn [fst] in W2. destruct ok; auto.
+    destruct (tick o3) as [bad3 o4].
+    assert (W3 : wfs (fst (if bad3 then (st2, Some EIO) else k_rmdir st2 p))).
+    { destruct bad3; [exact W2|apply wf_k_rmdir; exact W2]. }
+    destruct (if bad3 then (st2, Some EIO) else k_rmdir st2 p) as [st3 e3]. exact W3.
+Qed.
+
+Lemma wf_purge_up_o fuel : forall o st i, wfs st -> wfs (fst (purge_up_o fuel o st i)).
+Proof.
+  induction fuel as [|f IH]; intros o st i W; cbn [purge_up_o]; auto.
+  destruct (str_eqb i DOT1); auto. destruct (tick o) as [bad o1].
+  assert (W1 : wfs (fst (if bad then (st, Some EIO) else k_rmdir st i))).
+  { destruct bad; [exact W|apply wf_k_rmdir; exact W]. }
+  destruct (if bad then (st, Some EIO) else k_rmdir st i) as [st1 [e|]]; cbn [fst] in *; auto.
+Qed.
+
+Lemma wf_d_purge_o fuel o st p r : wfs st -> wfs (fst (d_purge_o fuel o st p r)).
+Proof.
+  intro W. unfold d_purge_o. pose proof (wf_d_unlink_o fuel o st p r W) as W1.
+  destruct (d_unlink_o fuel o st p r) as [[st1 ok] o1]. cbn [fst] in W1.
+  destruct ok; cbn [fst]; auto. apply wf_purge_up_o. exact W1.
+Qed.
+
 Lemma wf_fs_step st o : wfs st -> wfs (fs_step st o).
 Proof.
   intro W. destruct o; cbn [fs_step].
@@ -268,6 +350,10 @@ Proof.
   - apply wf_f_copy; auto.
   - apply wf_d_create; auto.
   - apply wf_d_unlink; auto.
+  - apply wf_f_readAll_path; auto.
+  - apply wf_d_change; auto.
+  - apply wf_d_unlink_o; auto.
+  - apply wf_d_purge_o; auto.
 Qed.
 
 Lemma wf_init : wfs init_state.
